@@ -284,8 +284,14 @@ MUTANTS += [
     dict(id='c09-richardson-once', props=['C09', 'C01'], file=CORE,
          old="        self.set_richardson_rule(step_ratio, self.richardson_terms)\n\n        return self.fd_rule.apply(results, steps, step_ratio), fxi\n\n    def set_richardson_rule",
          new="        if not hasattr(self, '_rr_set'):\n            self.set_richardson_rule(step_ratio, self.richardson_terms)\n            self._rr_set = True\n\n        return self.fd_rule.apply(results, steps, step_ratio), fxi\n\n    def set_richardson_rule"),
-    dict(id='c09-n-setter-forgets', props=['C09'], file=CORE,
-         old="        self.fd_rule.n = value\n        self._set_derivative()", new="        self.fd_rule.n = value"),
+    dict(id='c09-undo-shallow-copy-fix', props=['C09'], edits=[
+        (CORE, "        super(Derivative, self).__init__(step=step,  **options)\n", "        super(Derivative, self).__init__(step=step,  **options)\n        self._set_derivative()\n"),
+        (CORE, "        self.fd_rule.n = value\n", "        self.fd_rule.n = value\n        self._set_derivative()\n"),
+        (CORE, "    def _derivative(self, x_i, args, kwds):\n        if self.n == 0:\n            return self._derivative_zero_order(x_i, args, kwds)\n        return self._derivative_nonzero_order(x_i, args, kwds)\n",
+         "    def _set_derivative(self):\n        if self.n == 0:\n            self._derivative = self._derivative_zero_order\n        else:\n            self._derivative = self._derivative_nonzero_order\n")]),
+    dict(id='c09-n-dispatch-frozen-at-first-call', props=['C09'], file=CORE,
+         old="    def _derivative(self, x_i, args, kwds):\n        if self.n == 0:\n",
+         new="    def _derivative(self, x_i, args, kwds):\n        if not hasattr(self, '_n0'):\n            self._n0 = self.n == 0\n        if self._n0:\n"),
     dict(id='c09-module-global-scratch', props=['C09'], edits=[
         (FD, "        fd_rules = FD_RULES.get((step_ratio, parity, num_terms))\n        if fd_rules is None:\n            fd_mat = self._fd_matrix(step_ratio, parity, num_terms)\n            fd_rules = linalg.pinv(fd_mat)\n",
          "        global _SCRATCH\n        _SCRATCH = (step_ratio, parity, num_terms)\n        fd_rules = FD_RULES.get(_SCRATCH)\n        if fd_rules is None:\n            fd_mat = self._fd_matrix(step_ratio, parity, num_terms)\n            fd_rules = linalg.pinv(self._fd_matrix(*_SCRATCH))\n")]),
